@@ -723,6 +723,18 @@ def run_c13(ck, ctx):
             if not any(e[1] == c and e[0] == frame_start for e in r.errors):
                 ck.violation('frame_rule', {'what': 'broken frame rule not reported with its code at the frame start offset', 'kind': kind, 'variant': variant,
                                             'expected': c, 'frame_start': frame_start, 'errors': r.errors[:6], 'input_hex': data.hex()})
+    # muting (`-m`) only shortens what is displayed: the frame-level findings (offset, code), the total and the ALPIDE statistics of
+    # every readout-frame scenario must be those of the unmuted run (seeded C13-m5: the cross-lane bunch-counter message built only
+    # when not muted, and with it the [E74]/[E75] finding lost)
+    resm = L.pmap(lambda j: L.run_cli(['check', 'all', 'its-stave', '-m'], j[4]), jobs)
+    for j, r, rm in zip(jobs, res, resm):
+        if r.stats is None or r.exit != 0: continue
+        ck.case((j[0], j[1], j[2], 'muted')); ck.count('frames_muted_runs')
+        a = sorted((e[0], e[1]) for e in r.errors); b = sorted((e[0], e[1]) for e in rm.errors) if rm.stats is not None else None
+        sa = json.dumps(r.stats.get('alpide_stats'), sort_keys=True); sb = json.dumps(rm.stats.get('alpide_stats'), sort_keys=True) if rm.stats else None
+        if a != b or sa != sb or rm.exit != r.exit:
+            ck.violation('muted', {'what': 'with --mute-errors the findings or ALPIDE statistics of a readout-frame scenario differ from the unmuted run',
+                                   'kind': j[1], 'variant': j[2], 'unmuted': a[:6], 'muted': (b or [])[:6], 'exit_muted': rm.exit, 'input_hex': j[4].hex()})
     dis = compare_model(ck, 'run_frames', jobs, res, reqs)
     # alpide statistics: model vs implementation
     model = model_run(reqs)
